@@ -550,6 +550,38 @@ def lint_directory_bounded(ctx):
                              budget=f"{n} trees", witness_confirmed=True,
                              witness={"tree": tree, "patterns": raw, "recursive": False, "got": sorted(got), "expected": sorted(want_flat)},
                              note=f"non-recursive: tree {tree} patterns {raw}: reported {sorted(got)}, expected {sorted(want_flat)}")]
+            # the parallel entry point honours the recursion flag like the sequential one
+            for rec in (True, False):
+                clear_ignore_parser_cache()
+                vs = Orchestrator(project_root=root, config={}).lint_directory_parallel(root, recursive=rec, max_workers=2)
+                got = {os.path.relpath(v.file_path, str(root)) for v in vs if v.rule_id.startswith("magic-numbers")}
+                exp = want if rec else want_flat
+                cases += 1
+                if got != exp:
+                    return [dict(name=name, kind="bounded", verdict="refuted", carries=True, tool="real-tree lint runs", cases=cases,
+                                 budget=f"{n} trees", witness_confirmed=True,
+                                 witness={"tree": tree, "patterns": raw, "parallel": True, "recursive": rec, "got": sorted(got), "expected": sorted(exp)},
+                                 note=f"lint_directory_parallel(recursive={rec}): reported {sorted(got)}, expected {sorted(exp)}; tree {tree} patterns {raw}")]
+            # two GENERATIONS of the ignore parser in one process: the same files judged first with no repository pattern
+            # at all (parent directory as project root), then with the project's own patterns, then the reverse order
+            if pats and source == ".thailintignore":
+                for order in (("outer", "own"), ("own", "outer")):
+                    clear_ignore_parser_cache()
+                    for who in order:
+                        pr_root = root if who == "own" else root.parent
+                        vs = Orchestrator(project_root=pr_root, config={}).lint_directory(root, recursive=True)
+                        got = {os.path.relpath(v.file_path, str(root)) for v in vs if v.rule_id.startswith("magic-numbers")}
+                        exp = want if who == "own" else {"/".join(pp) for pp in _files_of(tree)
+                                                          if pp[-1].endswith(".py") and not any(code_excluded_dir(c) for c in pp)
+                                                          and pathlib.PurePosixPath(pp[-1]).suffix not in COMPILED_SUFFIXES}
+                        cases += 1
+                        if got != exp:
+                            return [dict(name=name, kind="bounded", verdict="refuted", carries=True, tool="real-tree lint runs", cases=cases,
+                                         budget=f"{n} trees", witness_confirmed=True,
+                                         witness={"tree": tree, "patterns": raw, "sequence": order, "step": who, "got": sorted(got), "expected": sorted(exp)},
+                                         note=f"parser generations {order}, step {who!r} (project root = "
+                                              f"{'the project' if who == 'own' else 'its parent: no patterns'}): reported {sorted(got)}, "
+                                              f"expected {sorted(exp)}; tree {tree} patterns {raw}")]
             # CLI plumbing with a directory argument AND explicitly named files (some beneath the directory), both
             # recursion modes: every named, non-skipped file and every file the directory scan reaches is reported
             all_files = _files_of(tree)
